@@ -134,6 +134,7 @@ func c03ChainCase(ch c03Chain, pl c03Placement, sep string, sepName string, tag 
 	d := map[string]any{"two": []any{1, 2}, "yes": true}
 	ch.data("", d)
 	res := renderPage(map[string]string{"p.vuego": tpl}, "p.vuego", d)
+	pendingPages = append(pendingPages, pageCase("chain", map[string]string{"p.vuego": tpl}, nil, "p.vuego", d, "placement:"+pl.name))
 	c := &Case{Name: fmt.Sprintf("chain %v %v in %s sep %s tag %s", ch.kinds, ch.truth, pl.name, sepName, tag),
 		Input: map[string]any{"stream": "chain", "kinds": ch.kinds, "truth": ch.truth, "placement": pl.name, "sep": sepName, "tag": tag, "tpl": tpl},
 		Impl:  res.canon(), Oracle: &Verdict{OK: true}, Tags: []string{"stream:chain", "placement:" + pl.name, "sep:" + sepName, fmt.Sprintf("len:%d", len(ch.kinds))}}
@@ -165,7 +166,18 @@ func c03ChainCase(ch c03Chain, pl c03Placement, sep string, sepName string, tag 
 	return c
 }
 
+// page-correspondence cases produced while building oracle cases; flushed into the run by the caller
+var pendingPages []*Case
+
+func flushPages(r *Run) {
+	for _, c := range pendingPages {
+		r.Add(c)
+	}
+	pendingPages = nil
+}
+
 func c03Chains(r *Run) {
+	defer flushPages(r)
 	maxLen := 3
 	if r.Thorough() {
 		maxLen = 4
